@@ -138,13 +138,19 @@ deriving Repr
 def emptyBlob : Blob := ⟨"", 0⟩
 
 /-- lib.go unzipToTemp (os.CreateTemp assumed to succeed): creates a file, copies the entry.
-Returns the new state, the file id, and whether an error is returned along with the path. -/
+Returns the new state, the file id, and whether an error is returned along with the path
+(`Open` failure: the file stays empty; CRC failure: all bytes were copied). -/
 def unzipToTemp (st : St) (e : Entry) : St × Nat × Bool :=
   let id := st.next
-  match e.io with
-  | .none => ({ st with disk := st.disk.store id e.content, next := id + 1, inflated := e.name :: st.inflated }, id, false)
-  | .copy => ({ st with disk := st.disk.store id e.content, next := id + 1, inflated := e.name :: st.inflated }, id, true)
-  | .open => ({ st with disk := st.disk.store id emptyBlob, next := id + 1 }, id, true)
+  let body := match e.io with | .open => emptyBlob | _ => e.content
+  let infl := match e.io with | .open => st.inflated | _ => e.name :: st.inflated
+  ({ st with disk := st.disk.store id body, next := id + 1, inflated := infl }, id,
+    match e.io with | .none => false | _ => true)
+
+/-- `tempFile, err := f.unzipToTemp(v); f.tempFiles.Store(fileName, tempFile); if err == nil { continue }` -/
+def spillOne (st : St) (fileName : String) (e : Entry) : St × Bool :=
+  let r := unzipToTemp st e
+  ({ r.1 with temp := r.1.temp.store fileName r.2.1 }, !r.2.2)
 
 inductive ZRes where
   | ok (st : St) (worksheets : Nat)
@@ -164,23 +170,29 @@ def readFileInto (st : St) (fileName : String) (e : Entry) : Option St ⊕ Unit 
     if e.declared < 0 then .inr ()
     else .inl (some { st with pkg := st.pkg.store fileName e.content, inflated := e.name :: st.inflated })
 
-/-- one iteration of the loop of ReadZipReader after the size guard; `none` = `continue` -/
+def sstGuard (l : Limits) (fileName : String) (e : Entry) : Bool :=
+  isSST fileName && cmpOp Facts.C12.sstGuardOp e.declared l.xml && (!Facts.C12.sstGuardExcludesDir || !e.isDir)
+
+def sheetGuard (l : Limits) (e : Entry) : Bool :=
+  cmpOp Facts.C12.sheetGuardOp e.declared l.xml && (!Facts.C12.sheetGuardExcludesDir || !e.isDir)
+
+/-- the worksheet `if` of the loop body -/
+def sheetStep (l : Limits) (st : St) (fileName : String) (e : Entry) : St × Bool :=
+  if isSheet fileName then (if sheetGuard l e then spillOne st fileName e else (st, false)) else (st, false)
+
+/-- the two spill `if`s of the loop body of ReadZipReader; the flag is `continue` -/
 def spillStep (l : Limits) (st : St) (fileName : String) (e : Entry) : St × Bool :=
-  -- shared strings
-  let (st1, done1) :=
-    if isSST fileName && cmpOp Facts.C12.sstGuardOp e.declared l.xml
-        && (!Facts.C12.sstGuardExcludesDir || !e.isDir) then
-      let (s, id, err) := unzipToTemp st e
-      ({ s with temp := s.temp.store fileName id }, !err)
-    else (st, false)
-  if done1 then (st1, true) else
-  -- worksheets
-  if isSheet fileName then
-    if cmpOp Facts.C12.sheetGuardOp e.declared l.xml && (!Facts.C12.sheetGuardExcludesDir || !e.isDir) then
-      let (s, id, err) := unzipToTemp st1 e
-      ({ s with temp := s.temp.store fileName id }, !err)
-    else (st1, false)
-  else (st1, false)
+  if sstGuard l fileName e then
+    let r := spillOne st fileName e
+    if r.2 then r else sheetStep l r.1 fileName e
+  else sheetStep l st fileName e
+
+/-- an entry replaces any earlier entry of the same name: the earlier temp file is removed and
+its tempFiles / fileList entries are deleted -/
+def dropPart (st : St) (n : String) : St :=
+  match st.temp.load n with
+  | some id => { st with temp := st.temp.erase n, disk := st.disk.erase id, pkg := st.pkg.erase n }
+  | none => { st with pkg := st.pkg.erase n }
 
 /-- lib.go ReadZipReader: fold over the entries with the running declared total -/
 def readZip (l : Limits) : St → Int → Nat → List Entry → ZRes
@@ -190,11 +202,12 @@ def readZip (l : Limits) : St → Int → Nat → List Entry → ZRes
     if cmpOp Facts.C12.sizeGuardOp total' l.size then .sizeErr st else
     let fileName := normName e.name
     let ws' := if isSheet fileName then ws + 1 else ws
-    let (st1, cont) := spillStep l st fileName e
-    if cont then readZip l st1 total' ws' rest else
-    match readFileInto st1 fileName e with
-    | .inl none => .readErr st1
-    | .inr () => .panic st1
+    let st0 := if Facts.C12.dupReplaces then dropPart st fileName else st
+    let r := spillStep l st0 fileName e
+    if r.2 then readZip l r.1 total' ws' rest else
+    match readFileInto r.1 fileName e with
+    | .inl none => .readErr r.1
+    | .inr () => .panic r.1
     | .inl (some st2) => readZip l st2 total' ws' rest
 
 /-! ## Close -/
@@ -247,13 +260,19 @@ def readTemp (st : St) (n : String) : Option Blob :=
   | none => none
   | some id => st.disk.load id
 
-/-- lib.go readBytes: memory tier, else the temp file, promoted into Pkg -/
+/-- lib.go readBytes: memory tier if non-empty; else readTemp.  readTemp returns `(nil, nil)`
+for a part that is not spilled, so `io.ReadAll(nil)` yields an empty slice which is stored
+into Pkg (reading a missing part creates it, empty); for a spilled part the file content is
+promoted into Pkg; when the file cannot be opened nothing is stored. -/
 def readBytes (st : St) (n : String) : St × Blob :=
   let c := readXML st n
   if c.len ≠ 0 then (st, c) else
-  match readTemp st n with
-  | none => (st, c)
-  | some b => if Facts.C12.readBytesPromotes then ({ st with pkg := st.pkg.store n b }, b) else (st, b)
+  match st.temp.load n with
+  | none => if Facts.C12.readBytesPromotes then ({ st with pkg := st.pkg.store n c }, c) else (st, c)
+  | some id =>
+    match st.disk.load id with
+    | none => (st, c)
+    | some b => if Facts.C12.readBytesPromotes then ({ st with pkg := st.pkg.store n b }, b) else (st, b)
 
 /-- rows.go xmlDecoder: memory tier if non-empty, else a reader on the temp file (no promotion) -/
 def stream (st : St) (n : String) : Blob :=
@@ -398,13 +417,17 @@ def parts : List Entry → Map Blob → Map Blob
 
 def get (s : S) (n : String) : Blob := (s.m.load n).getD emptyBlob
 
+/-- reading a part that does not exist creates it, empty (limit-independent quirk of readBytes) -/
+def touch (s : S) (n : String) : S :=
+  if (s.m.load n).isNone then { s with m := s.m.store n emptyBlob } else s
+
 def wsWrite (m : Map Blob) (wsSer : Map Blob) : List String → Map Blob
   | [] => m
   | n :: r => wsWrite (m.store n ((wsSer.load n).getD ⟨"unserialised", 1⟩)) wsSer r
 
 def step (s : S) : Op → S × Out
-  | .readBytes n => (s, .blob (get s n))
-  | .wsRead n => ({ s with loaded := insertNew n s.loaded }, .blob (get s n))
+  | .readBytes n => (touch s n, .blob (get s n))
+  | .wsRead n => ({ touch s n with loaded := insertNew n s.loaded }, .blob (get s n))
   | .flush n ser => (if n ∈ s.loaded then { s with m := s.m.store n ser } else s, .none)
   | .stream n => (s, .blob (get s n))
   | .sstRead => ({ s with sstLoaded := true }, .none)
